@@ -113,6 +113,15 @@ def run_C03(ctx):
             ctx.violation("probe_f7", {"kind": "reference journal does not return for a storage word encoding a huge length", "k": 27, "rc": rc, "output": out[-1000:]})
 
 
+def run_C12(ctx):
+    ref_run(ctx, "journalpair", ["journalpair", "--n", n_cases(ctx, 5000, 300000)],
+            "program pairs of equal length on the real EVM: journal opcode (+ n-1 JUMPDESTs) vs n POPs; return data, post-state, logs, control flow and stack heights must agree, gas must differ by exactly 800+(n-1)-2n per executed site; malformed sites must halt exceptionally",
+            nontrivial=lambda c: c.get("journal_sites_executed", 0) >= 1, oracle_prefix="C12")
+    corr_run(ctx, "journal", ["journal", "--n", n_cases(ctx, 1200, 60000)],
+             "Model/Tracer.v jop vs the journal instructions incl. per-step fee, stack and memory invisibility oracle",
+             nontrivial=lambda c: len(c.get("steps") or []) > 1, has_oracle=True)
+
+
 def run_C20(ctx):
     ref_run(ctx, "workscan", ["workscan"], "state reads (counting StateDB) and allocated bytes per journal instruction / Artela precompile call with length fields 2^5..2^16 (2^22 thorough)",
             oracle_prefix="C20")
@@ -284,6 +293,20 @@ PROPS.update({
         "rule": "6 instruction/precompile shapes x k = 5..16 (22): a length field of 2^k placed where it could drive reads, copies or allocations; bound checked: reads <= gas/100 + 2, allocated bytes <= 1 MiB + 16 x memory size; "
                 "non-trivial = any case; distinct = (shape, k)",
         "modelled": ["vm/instructions.go:926-1140", "vm/contracts.go:1161-1193", "vm/gas_table.go makeGasJournal"],
+        "assumptions": [],
+    },
+})
+
+PROPS.update({
+    "C12": {
+        "run": run_C12,
+        "technique": "Coq theorems (uniform table entries on every fork from regenerated tables; a journal step passes the world through unchanged; errors are exceptional halts) + relational pair runs (journal opcode vs pops)",
+        "level_text": "Theorems: over the regenerated instruction tables of all 13 forks the eight journal entries are identical (flat fee function, n pops, nothing pushed, no memory function); in the frame model serving a journal instruction "
+                      "leaves the world state and the call tree untouched and tells the machine only success/error; errors are never panics and end the frame with all gas forfeited. Non-interference is validated as a relational property on the real EVM: "
+                      "generated program pairs that differ only in journal opcode vs operand pops must agree on return data, post-state, logs, control flow and stack heights, and differ in gas by exactly the flat fee per executed site, on all forks and in static frames.",
+        "level_note": COMMON_NOTE + "Pair programs do not observe gas, their own code or re-enter themselves (those would legitimately differ). Modelled: vm/instructions.go:926-1140, vm/jump_table.go journal entries, vm/gas_table.go makeGasJournal.",
+        "rule": "pairs from the snippet grammar with journal snippets (registration + value/reference change journals, ~12% malformed operands), 13 forks, 20% static frames; non-trivial = at least one journal instruction executed; distinct = distinct code",
+        "modelled": ["vm/instructions.go:926-1140", "vm/gas_table.go:224-229", "vm/jump_table.go:1021-1068"],
         "assumptions": [],
     },
 })
